@@ -81,9 +81,30 @@ def main(tier, seed):
         modscope.W = scopes.W
         modscope.part_c05(chk, tier, jobs, oracle)
         modscope.part_c05_types(chk, tier, jobs, oracle)
+        # `q.l`: record access on a local wins over the import qualifier q, and the side tables go-to-definition reads say so
+        from . import fieldk, unifier
+        unifier.W = scopes.W
+        res, complete = explore.explore(fieldk.factory, (), jobs=1)
+        chk.add_run('infer_function on fn(q) { q.l }: annotation of q, presence of the field, of an import qualifier q and of a module member l symbolic; field_resolution / module_resolution vs record-first rule',
+                    res, complete, {'configurations': 24}, nontrivial_classes=lambda c: c in ('record', 'module', 'neither'))
+        probes = fieldk.native_probes(oracle)
+        failing = [p for p in probes if not p[1]]
+        mine = [v for v in res.violations if any(w.startswith('C05') for w in v['why'])]
+        if mine:
+            why = '; '.join(sorted({w for v in mine for w in v['why'] if w.startswith('C05')}))[:600]
+            if failing:
+                chk.violation('field-access:shadowing', 'bounded', '%s; public API: %s: %s' % (why, failing[0][0], failing[0][2]), {'probe': failing[0][0], 'configuration': mine[0]['cex']}, confirmed=True)
+            else:
+                chk.inconclusive.append('field-access kernel: %s -- but go-to-definition on the %d probes lands where it should' % (why, len(probes)))
+        elif failing:
+            chk.violation('field-access:shadowing', 'probe', 'go-to-definition, %s: %s' % (failing[0][0], failing[0][2]), {'probe': failing[0][0]}, confirmed=True)
+        else:
+            chk.validated += len(probes)
     finally:
         oracle.close(); scopes.W.cleanup()
     chk.assumptions += [
+        'field-access kernel: InferCtx::infer_function (real MIR) on fn(q [: Rec | : Int]) { q.l } built as arena data; the solver chooses the annotation, whether Rec has the field l, whether an import qualifier q exists and whether that module exports l; '
+        'resolver / Adt / Field accessors are stubs answering from that configuration. Rule asserted (the one the repository\'s tests encode): record access first - then no module_resolution entry for the base, which go-to-definition consults before the scope resolver -, module access as the fallback',
         'qualified type names: def::semantics::classify_type_name under-constrained: an answer taken from the current module\'s own type scope requires that a step of the qualified lookup returned None on that path; probed through goto_definition on `shapes.Wobble` next to a local `type Wobble`',
         'module-scope kernel: def::scope::module_scope_with_map_query on its real MIR with the database havoc\'d, one module import (alias symbolic) and one unqualified import whose resolution yields a symbolic (type-import flag, definition kind) pair; that resolve_import finds the exporting module\'s public declarations is assumed (probed through goto_definition on a three-module workspace)',
         'kernel claim: the first two anchored mechanisms (expression-scope construction and innermost-first lookup) on function bodies built directly as arena data from %d templates '
